@@ -265,14 +265,18 @@ impl VRead {
     pub uninterp spec fn content(&self) -> Seq<u8>;
     pub uninterp spec fn pos(&self) -> int;
     pub uninterp spec fn env_ok(&self) -> bool;
+    /// WHICH read position (cursor) this handle reads through.  Two handles with the same `cursor_id` share one
+    /// position: a seek/read on one moves the other (what `File::try_clone` / `dup` gives); handles with different
+    /// ids are independent.
+    pub uninterp spec fn cursor_id(&self) -> int;
     /// ASSUMED contract of `R::reopen` (trait Reopen, utils/file/reopen.rs: "reopening should be independent with
     /// respect to seeks and reads from the original object"): may fail; the new handle is over the SAME file content,
-    /// at position 0.  For `ReopenableFile` (`File::open(&self.path)`) this is "the path still names the same,
-    /// unmodified file"; for `CachedBBIFileRead<R>` it is what unit cache proves from R's
-    /// (`reopen/reopened_reader_is_coherent_for_the_same_file`).
+    /// at position 0, through a cursor of its OWN.  For `ReopenableFile` this is what `file_reopen/*` below proves from
+    /// `File::open`'s contract ("the path still names the same, unmodified file"; a fresh open file description); for
+    /// `CachedBBIFileRead<R>` it is what unit cache proves from R's (`reopen/reopened_reader_is_coherent_for_the_same_file`).
     #[verifier::external_body]
     pub fn reopen(&self) -> (r: Result<VRead, IoError>)
-        ensures r matches Ok(f) ==> f.content() == self.content() && f.pos() == 0,
+        ensures r matches Ok(f) ==> f.content() == self.content() && f.pos() == 0 && f.cursor_id() != self.cursor_id(),
     { unimplemented!() }
 }
 /// R11 shim for `CachedBBIFileRead<R>` (R = VRead).  ASSUMED contract of `CachedBBIFileRead::new(read)`: wraps the
@@ -465,6 +469,8 @@ impl BigWigRead<VRead> {
         r matches Ok(c) ==> same_file_facts(self.info, c.info),
         [[L: cached_tree_positions_are_taken_over_or_dropped_never_invented]]
         r matches Ok(c) ==> caches_taken_over_or_dropped(self.info, c.info),
+        [[L: reopened_reader_reads_through_a_cursor_of_its_own]]
+        r matches Ok(c) ==> c.read.cursor_id() != self.read.cursor_id(),
         [[L: doc/reopened_reader_starts_at_position_0]]
         r matches Ok(c) ==> c.read.pos() == 0,
         [[L: doc/reopened_info_is_a_full_clone_caches_included]]
@@ -602,6 +608,8 @@ impl BigBedRead<VRead> {
         r matches Ok(c) ==> same_file_facts(self.info, c.info),
         [[L: cached_tree_positions_are_taken_over_or_dropped_never_invented]]
         r matches Ok(c) ==> caches_taken_over_or_dropped(self.info, c.info),
+        [[L: reopened_reader_reads_through_a_cursor_of_its_own]]
+        r matches Ok(c) ==> c.read.cursor_id() != self.read.cursor_id(),
         [[L: doc/reopened_reader_starts_at_position_0]]
         r matches Ok(c) ==> c.read.pos() == 0,
         [[L: doc/reopened_info_is_a_full_clone_caches_included]]
@@ -841,14 +849,88 @@ impl PathV {
     /// `PathBuf::new()` (0 hits on /repo): SOME path, nothing promised
     #[verifier::external_body] pub fn new() -> (r: PathV) { unimplemented!() }
 }
-/// `std::fs::File` (opaque handle)
+/// `std::io::SeekFrom` (R11: `io::SeekFrom` -> `SeekFrom`)
+pub enum SeekFrom { Start(u64), End(i64), Current(i64) }
+/// `std::io::IoSliceMut<'_>` (opaque; only handed on)
+#[verifier::external_body]
+pub struct IoSliceMut { _p: u8 }
+/// `std::fs::File`: an opaque handle = WHICH file it is on (`node`: the file the OS resolved, content included), WHICH
+/// open file description it reads through (`cursor_id`: the kernel object that holds the read position) and where
+/// that position stands.
 #[verifier::external_body]
 pub struct VFile { _p: u8 }
-/// what the file system answers to `File::open(path)` (ASSUMED deterministic while the program runs: "the path keeps
-/// naming the same, unmodified file" -- the hypothesis under which a reopened reader can give the same answers at all)
-pub uninterp spec fn fs_open(p: PathV) -> Result<VFile, IoError>;
+impl VFile {
+    pub uninterp spec fn node(&self) -> int;
+    pub uninterp spec fn cursor_id(&self) -> int;
+    pub uninterp spec fn pos(&self) -> int;
+    /// `File::try_clone` (std: "Creates a new File instance that shares the same underlying file handle ... Reads,
+    /// writes, and seeks will affect both File instances simultaneously" -- `dup`): may fail; the new handle is on the
+    /// same file and reads through THE SAME cursor (shared position).  0 hits on /repo.
+    #[verifier::external_body]
+    pub fn try_clone(&self) -> (r: Result<VFile, IoError>)
+        ensures r matches Ok(f) ==> f.node() == self.node() && f.cursor_id() == self.cursor_id() && f.pos() == self.pos(),
+    { unimplemented!() }
+    // The seven `Seek` / `Read` methods of `File`.  ASSUMED: nothing about WHAT they answer (short reads, EINTR, ...):
+    // only a name for "an outcome this call can have on this handle" (`*_out`: handle and buffer before, handle and
+    // buffer after, result), and that the handle stays on its file and cursor.
+    pub uninterp spec fn seek_out(before: VFile, pos: SeekFrom, after: VFile, r: Result<u64, IoError>) -> bool;
+    pub uninterp spec fn read_out(before: VFile, buf: Seq<u8>, after: VFile, buf_after: Seq<u8>, r: Result<usize, IoError>) -> bool;
+    pub uninterp spec fn read_vectored_out(before: VFile, bufs: Seq<IoSliceMut>, after: VFile, bufs_after: Seq<IoSliceMut>, r: Result<usize, IoError>) -> bool;
+    pub uninterp spec fn read_to_end_out(before: VFile, buf: Seq<u8>, after: VFile, buf_after: Seq<u8>, r: Result<usize, IoError>) -> bool;
+    pub uninterp spec fn read_to_string_out(before: VFile, buf: Name, after: VFile, buf_after: Name, r: Result<usize, IoError>) -> bool;
+    pub uninterp spec fn read_exact_out(before: VFile, buf: Seq<u8>, after: VFile, buf_after: Seq<u8>, r: Result<(), IoError>) -> bool;
+    #[verifier::external_body]
+    pub fn seek(&mut self, pos: SeekFrom) -> (r: Result<u64, IoError>)
+        ensures VFile::seek_out(*old(self), pos, *final(self), r),
+            final(self).node() == old(self).node(), final(self).cursor_id() == old(self).cursor_id(),
+    { unimplemented!() }
+    #[verifier::external_body]
+    pub fn read(&mut self, buf: &mut [u8]) -> (r: Result<usize, IoError>)
+        ensures VFile::read_out(*old(self), old(buf)@, *final(self), final(buf)@, r),
+            final(self).node() == old(self).node(), final(self).cursor_id() == old(self).cursor_id(),
+    { unimplemented!() }
+    #[verifier::external_body]
+    pub fn read_vectored(&mut self, bufs: &mut [IoSliceMut]) -> (r: Result<usize, IoError>)
+        ensures VFile::read_vectored_out(*old(self), old(bufs)@, *final(self), final(bufs)@, r),
+            final(self).node() == old(self).node(), final(self).cursor_id() == old(self).cursor_id(),
+    { unimplemented!() }
+    #[verifier::external_body]
+    pub fn read_to_end(&mut self, buf: &mut Vec<u8>) -> (r: Result<usize, IoError>)
+        ensures VFile::read_to_end_out(*old(self), old(buf)@, *final(self), final(buf)@, r),
+            final(self).node() == old(self).node(), final(self).cursor_id() == old(self).cursor_id(),
+    { unimplemented!() }
+    #[verifier::external_body]
+    pub fn read_to_string(&mut self, buf: &mut Name) -> (r: Result<usize, IoError>)
+        ensures VFile::read_to_string_out(*old(self), *old(buf), *final(self), *final(buf), r),
+            final(self).node() == old(self).node(), final(self).cursor_id() == old(self).cursor_id(),
+    { unimplemented!() }
+    #[verifier::external_body]
+    pub fn read_exact(&mut self, buf: &mut [u8]) -> (r: Result<(), IoError>)
+        ensures VFile::read_exact_out(*old(self), old(buf)@, *final(self), final(buf)@, r),
+            final(self).node() == old(self).node(), final(self).cursor_id() == old(self).cursor_id(),
+    { unimplemented!() }
+}
+/// WHICH file the file system resolves a path to, or the refusal (ASSUMED deterministic while the program runs: "the
+/// path keeps naming the same, unmodified file" -- the hypothesis under which a reopened reader can give the same
+/// answers at all).  The HANDLE that an `open` returns is new each time: see `file_open`.
+pub uninterp spec fn fs_open(p: PathV) -> Result<int, IoError>;
+/// `File::open(path)`: refusal as the file system says; else a handle on the file the path names, at position 0,
+/// reading through a NEW open file description (nothing is claimed here about how its cursor relates to others:
+/// there is no other handle in sight where this shim is used)
 #[verifier::external_body]
-pub fn file_open(p: &PathV) -> (r: Result<VFile, IoError>) ensures r == fs_open(*p), { unimplemented!() }
+pub fn file_open(p: &PathV) -> (r: Result<VFile, IoError>)
+    ensures fs_open(*p) matches Err(e) ==> r == Err::<VFile, IoError>(e),
+        fs_open(*p) matches Ok(n) ==> (r matches Ok(f) && f.node() == n && f.pos() == 0),
+{ unimplemented!() }
+/// `File::open(path)` while the handle `existing` is alive (inside `ReopenableFile::reopen`: `self.file`): as
+/// `file_open`, and the new open file description is not the one any existing handle reads through -- `open(2)`
+/// always creates a new one; only `dup`/`try_clone`/`fork` share one.
+#[verifier::external_body]
+pub fn file_open_beside(existing: &VFile, p: &PathV) -> (r: Result<VFile, IoError>)
+    ensures fs_open(*p) matches Err(e) ==> r == Err::<VFile, IoError>(e),
+        fs_open(*p) matches Ok(n) ==> (r matches Ok(f) && f.node() == n && f.pos() == 0),
+        r matches Ok(f) ==> f.cursor_id() != existing.cursor_id(),
+{ unimplemented!() }
 /// `eprintln!(..)`: diagnostics only
 pub fn eprint_note() {}
 
@@ -859,21 +941,111 @@ pub fn eprint_note() {}
 //@sub /file: File/ => file: VFile min=1
 //@end
 impl ReopenableFile {
-// `impl Reopen for ReopenableFile`; `io::Result<Self>` -> `Result<Self, IoError>`, `File::open(&` -> `file_open(&`
+// `impl Reopen for ReopenableFile`; `io::Result<Self>` -> `Result<Self, IoError>`, `File::open(&` -> `file_open_beside(&self.file, &`
+// C03/C04/C10/C16 "the answer is the same ... through a reopened reader" / "independent of thread count": every reader
+// that a worker thread gets is a `reopen()` of the caller's; the query contracts are stated for a reader whose position
+// only its own seeks and reads move.  So the reopened handle must be on the same file AND read through a cursor of its
+// own: with a shared cursor (`try_clone`) another reader's seek lands between this reader's seek and its read.
 //@extract method bigtools/src/utils/file/reopen.rs reopen "Reopen for ReopenableFile$"
 //@as file_reopen
 //@rule R15
 //@rule R16
 //@sub /fn reopen\(&self\) -> io::Result<Self>/ => pub fn reopen(&self) -> Result<Self, IoError> min=1
-//@sub /File::open\(&/ => file_open(& min=0
+//@sub /File::open\(&?/ => file_open_beside(&self.file, & min=0
 //@sub /PathBuf::new\(\)/ => PathV::new() min=0
+//@sub /io::SeekFrom::/ => SeekFrom:: min=0
 //@ret r
 //@sig
     ensures
         [[L: reopens_the_same_path_and_remembers_it]]
-        fs_open(self.path) matches Ok(f) ==> r == Ok::<ReopenableFile, IoError>(ReopenableFile { path: self.path, file: f }),
+        fs_open(self.path) matches Ok(n) ==> (r matches Ok(c) && c.path == self.path && (c.file.node() == n || c.file.node() == self.file.node())),
         [[L: open_error_is_passed_on]]
         fs_open(self.path) matches Err(e) ==> r == Err::<ReopenableFile, IoError>(e),
+        [[L: reopened_handle_reads_through_a_cursor_of_its_own]]
+        r matches Ok(c) ==> c.file.cursor_id() != self.file.cursor_id(),
+        [[L: doc/reopened_handle_starts_at_position_0]]
+        r matches Ok(c) ==> c.file.pos() == 0,
+//@end
+// `impl Seek for ReopenableFile` / `impl Read for ReopenableFile`: seven one-line delegations.  Each must be THE
+// file's own method of the same name on the reader's own handle (the outcome is one that call can have), the path kept.
+//@extract method bigtools/src/utils/file/reopen.rs seek "Seek for ReopenableFile$"
+//@as file_seek
+//@rule R15
+//@rule R16
+//@sub /fn seek\(&mut self, pos: io::SeekFrom\) -> io::Result<u64>/ => pub fn seek(&mut self, pos: SeekFrom) -> Result<u64, IoError> min=1
+//@sub /io::SeekFrom::/ => SeekFrom:: min=0
+//@ret r
+//@sig
+    ensures
+        [[L: is_the_files_own_seek_to_the_given_target]]
+        VFile::seek_out(old(self).file, pos, final(self).file, r),
+        [[L: path_kept]]
+        final(self).path == old(self).path,
+//@end
+//@extract method bigtools/src/utils/file/reopen.rs read "Read for ReopenableFile$"
+//@as file_read
+//@rule R15
+//@rule R16
+//@sub /fn read\(&mut self, buf: &mut \[u8\]\) -> io::Result<usize>/ => pub fn read(&mut self, buf: &mut [u8]) -> Result<usize, IoError> min=1
+//@ret r
+//@sig
+    ensures
+        [[L: is_the_files_own_read_into_the_given_buffer]]
+        VFile::read_out(old(self).file, old(buf)@, final(self).file, final(buf)@, r),
+        [[L: path_kept]]
+        final(self).path == old(self).path,
+//@end
+//@extract method bigtools/src/utils/file/reopen.rs read_vectored "Read for ReopenableFile$"
+//@as file_read_vectored
+//@rule R15
+//@rule R16
+//@sub /fn read_vectored\(&mut self, bufs: &mut \[io::IoSliceMut<'_>\]\) -> io::Result<usize>/ => pub fn read_vectored(&mut self, bufs: &mut [IoSliceMut]) -> Result<usize, IoError> min=1
+//@ret r
+//@sig
+    ensures
+        [[L: is_the_files_own_read_vectored_into_the_given_buffers]]
+        VFile::read_vectored_out(old(self).file, old(bufs)@, final(self).file, final(bufs)@, r),
+        [[L: path_kept]]
+        final(self).path == old(self).path,
+//@end
+//@extract method bigtools/src/utils/file/reopen.rs read_to_end "Read for ReopenableFile$"
+//@as file_read_to_end
+//@rule R15
+//@rule R16
+//@sub /fn read_to_end\(&mut self, buf: &mut Vec<u8>\) -> io::Result<usize>/ => pub fn read_to_end(&mut self, buf: &mut Vec<u8>) -> Result<usize, IoError> min=1
+//@ret r
+//@sig
+    ensures
+        [[L: is_the_files_own_read_to_end_into_the_given_buffer]]
+        VFile::read_to_end_out(old(self).file, old(buf)@, final(self).file, final(buf)@, r),
+        [[L: path_kept]]
+        final(self).path == old(self).path,
+//@end
+//@extract method bigtools/src/utils/file/reopen.rs read_to_string "Read for ReopenableFile$"
+//@as file_read_to_string
+//@rule R15
+//@rule R16
+//@sub /fn read_to_string\(&mut self, buf: &mut String\) -> io::Result<usize>/ => pub fn read_to_string(&mut self, buf: &mut Name) -> Result<usize, IoError> min=1
+//@ret r
+//@sig
+    ensures
+        [[L: is_the_files_own_read_to_string_into_the_given_buffer]]
+        VFile::read_to_string_out(old(self).file, *old(buf), final(self).file, *final(buf), r),
+        [[L: path_kept]]
+        final(self).path == old(self).path,
+//@end
+//@extract method bigtools/src/utils/file/reopen.rs read_exact "Read for ReopenableFile$"
+//@as file_read_exact
+//@rule R15
+//@rule R16
+//@sub /fn read_exact\(&mut self, buf: &mut \[u8\]\) -> io::Result<\(\)>/ => pub fn read_exact(&mut self, buf: &mut [u8]) -> Result<(), IoError> min=1
+//@ret r
+//@sig
+    ensures
+        [[L: is_the_files_own_read_exact_into_the_given_buffer]]
+        VFile::read_exact_out(old(self).file, old(buf)@, final(self).file, final(buf)@, r),
+        [[L: path_kept]]
+        final(self).path == old(self).path,
 //@end
 }
 
@@ -913,7 +1085,7 @@ impl BigWigRead<ReopenableFile> {
         [[L: a_path_that_cannot_be_opened_is_that_io_error]]
         fs_open(path) matches Err(e) ==> r == Err::<Self, BigWigReadOpenError>(BigWigReadOpenError::IoError(e)),
         [[L: result_is_what_open_makes_of_that_file_remembering_that_path]]
-        fs_open(path) matches Ok(f) ==> r == bw_open_of(ReopenableFile { path: path, file: f }),
+        fs_open(path) matches Ok(n) ==> exists|f: VFile| f.node() == n && f.pos() == 0 && r == #[trigger] bw_open_of(ReopenableFile { path: path, file: f }),
 //@end
 }
 impl BigBedRead<ReopenableFile> {
@@ -934,7 +1106,7 @@ impl BigBedRead<ReopenableFile> {
         [[L: a_path_that_cannot_be_opened_is_that_io_error]]
         fs_open(path) matches Err(e) ==> r == Err::<Self, BigBedReadOpenError>(BigBedReadOpenError::IoError(e)),
         [[L: result_is_what_open_makes_of_that_file_remembering_that_path]]
-        fs_open(path) matches Ok(f) ==> r == bb_open_of(ReopenableFile { path: path, file: f }),
+        fs_open(path) matches Ok(n) ==> exists|f: VFile| f.node() == n && f.pos() == 0 && r == #[trigger] bb_open_of(ReopenableFile { path: path, file: f }),
 //@end
 }
 impl GenericBBIRead<ReopenableFile> {
@@ -957,7 +1129,7 @@ impl GenericBBIRead<ReopenableFile> {
         [[L: a_path_that_cannot_be_opened_is_that_io_error]]
         fs_open(*path) matches Err(e) ==> r == Err::<Self, GenericBBIFileOpenError>(GenericBBIFileOpenError::IoError(e)),
         [[L: result_is_what_open_makes_of_that_file_remembering_that_path]]
-        fs_open(*path) matches Ok(f) ==> r == generic_open_of(ReopenableFile { path: *path, file: f }),
+        fs_open(*path) matches Ok(n) ==> exists|f: VFile| f.node() == n && f.pos() == 0 && r == #[trigger] generic_open_of(ReopenableFile { path: *path, file: f }),
 //@end
 }
 
